@@ -28,6 +28,15 @@ func runC05(c *core.Ctx) {
 	k := drawC01Knobs(c)
 	k.liteB, k.restart = false, false
 	part2 := c.T.Bias(1, 2, "part2")
+	// (Part 2 runs full agents only. A lite peer that starts controlled originates no checks, so a conflict
+	// with it could only be resolved through its 487 answers - which the agent ignores, and which C02 as
+	// given requires to "change nothing". Measured: lite B controlled with the smaller tie-breaker and a full A
+	// started controlled never connect. Not judged here: C05 does not quantify over lite peers.)
+	if !part2 {
+		// part 1 also against a lite receiver (it is controlled and, being lite, sends no requests of its own)
+		k.liteB = c.T.Bias(1, 4, "liteB")
+		c.Knob("liteB", k.liteB)
+	}
 	c.Knob("part", map[bool]int{false: 1, true: 2}[part2])
 	opts := func() []ice.AgentOption {
 		return []ice.AgentOption{
@@ -42,8 +51,11 @@ func runC05(c *core.Ctx) {
 	if k.aliasA {
 		cfg.AliasA = "198.51.100.1"
 	}
-	if k.aliasB {
+	if k.aliasB && !k.liteB {
 		cfg.AliasB = "198.51.100.2"
+	}
+	if k.liteB {
+		cfg.OptsB = append(opts(), ice.WithICELite(true), ice.WithCandidateTypes([]ice.CandidateType{ice.CandidateTypeHost}))
 	}
 	d, err := rig.NewDuo(c, cfg)
 	if err != nil {
@@ -104,7 +116,7 @@ func runC05(c *core.Ctx) {
 	}
 
 	// part 1
-	inj := &c05Injector{c: c, d: d, led: led, tb: tb, role: map[string]string{"A": "controlling", "B": "controlled"}}
+	inj := &c05Injector{c: c, d: d, led: led, tb: tb, role: map[string]string{"A": "controlling", "B": "controlled"}, liteB: k.liteB}
 	sess := &c01Session{c: c, d: d, k: k, noOracles: true}
 	sess.hook = func(string) {
 		if c.Failed() {
@@ -138,12 +150,19 @@ type c05Injector struct {
 	tb   map[string]uint64
 	role map[string]string // the checker's own belief of each agent's current role
 	seq  uint32
+	// liteB: agent B is lite. Its role cannot be read off the wire (it originates no requests while
+	// controlled); it is controlled until a forged conflict makes it switch, after which it is left alone
+	// (the real conflict with the controlling peer that follows is part 2's subject).
+	liteB        bool
+	liteSwitched bool
 }
 
 func (in *c05Injector) inject() {
 	c, d := in.c, in.d
 	target, peer, th := d.A, d.B, d.HA
-	if c.T.Choose(2, "target") == 1 {
+	if c.T.Choose(2, "target") == 1 || in.liteB {
+		// (with a lite B only B is targeted: the full peer then stays controlling, so nothing but a forged
+		// conflict can change the role of B, which the checker cannot read off the wire)
 		target, peer, th = d.B, d.A, d.HB
 	}
 	if target.Conn == nil || peer.Conn == nil {
@@ -152,17 +171,27 @@ func (in *c05Injector) inject() {
 	// The current role is read off the wire: let only the clock advance (no deliveries, so nothing can
 	// change the role) until the agent emits a request, and take the role attribute it carries.
 	in.led.Update()
-	n00 := in.led.Side[target.Name].SentReqs
-	for i := 0; i < 400 && in.led.Side[target.Name].SentReqs == n00; i++ {
-		d.S.Advance(d.S.Deltas[1])
-		in.led.Update()
-	}
-	if in.led.Side[target.Name].SentReqs == n00 {
-		return // the agent is not sending (failed / no pairs): nothing to collide with
-	}
-	role := lastRole(in.led.Side[target.Name].SentRoles)
-	if role == "" {
-		return
+	liteTarget := in.liteB && target == d.B
+	role := ""
+	if liteTarget {
+		if in.liteSwitched {
+			return
+		}
+		role = "controlled"
+		c.Probe("conflict-at-lite-receiver")
+	} else {
+		n00 := in.led.Side[target.Name].SentReqs
+		for i := 0; i < 400 && in.led.Side[target.Name].SentReqs == n00; i++ {
+			d.S.Advance(d.S.Deltas[1])
+			in.led.Update()
+		}
+		if in.led.Side[target.Name].SentReqs == n00 {
+			return // the agent is not sending (failed / no pairs): nothing to collide with
+		}
+		role = lastRole(in.led.Side[target.Name].SentRoles)
+		if role == "" {
+			return
+		}
 	}
 	in.role[target.Name] = role
 	locals := target.LocalCands()
@@ -270,6 +299,9 @@ func (in *c05Injector) inject() {
 			in.role[target.Name] = "controlling"
 		}
 		c.Probe("forged-conflict-switched-" + role)
+		if liteTarget {
+			in.liteSwitched = true
+		}
 	}
 	// differential: no pair / selection / callback change caused by the request
 	diffs := rig.Diff(pre, post, rig.DiffOpts{AllowLastRecv: map[string]bool{"udp/" + src.String(): true}})
